@@ -29,6 +29,7 @@ LIM_FIELDS = ('my_count', 'my_tries', 'my_future_decrement')
 def run(facts, rep):
     d1_limiter(facts, rep)
     d2_join(facts, rep)
+    d2_rejection_is_clean(facts, rep)
     d3_buffers(facts, rep)
     d4_overwrite(facts, rep)
     d5_routing(facts, rep)
@@ -177,6 +178,57 @@ def d2_join(facts, rep):
         rep.ob('D2', 'K4', fn, 'the join consumes its inputs only when the successor accepted the tuple, and releases them otherwise', ok,
                'tuple_accepted/tuple_rejected not tied to the result of try_put_task')
     rep.floor('D2', 2, 'join')
+
+
+def d2_rejection_is_clean(facts, rep):
+    """A key-matching port reports a duplicate key on the port as a rejected put (try_put returns false; the sender keeps the
+    message and offers it again).  A rejected put must leave the port's buffer as it was: in hash_buffer::insert_with_key no
+    path that returns false has destroyed, re-created or inserted an element.  Otherwise the message that was accepted
+    earlier is lost and the rejected one is used (and later delivered again by its sender)."""
+    MUT = ('destroy_element', 'create_element', 'internal_insert_with_key', 'grow_array')
+    n = 0
+    seen = set()
+    for fn in facts.fns.values():
+        if not fn.p.endswith('hash_buffer_impl::insert_with_key'):
+            continue
+        muts = [c[0] for c in calls_named(fn, MUT)]
+        muts += [pos for pos, sx, node, kind in member_accesses(fn, ('nelements',)) if kind in ('write', 'rmw')]
+        frets = [(pos, node) for pos, sx, node in fn.stmt_elems(('return',)) if 'sub' in node and fn.cv(node['sub']) == 0]
+        if not frets:
+            raise AnalysisBroken('hash_buffer_impl::insert_with_key has no `return false`')
+        bad = [(m, r) for m in muts for r, _ in frets if fn.can_reach(m, r)]
+        n += 1
+        rep.ob('D2', 'K3', fn, 'a duplicate key is rejected without touching the element that is already stored', not bad,
+               'on a path that returns false the stored element was destroyed / re-created: the accepted message with this key is '
+               'replaced by the rejected one (accepted message lost, rejected message used and offered again by its sender)')
+    if n == 0:
+        raise AnalysisBroken('hash_buffer_impl::insert_with_key not instantiated')
+    # the port reports exactly what the buffer did: the status published for a put is computed from insert_with_key's result
+    from engine.rules import vars_initialised_from
+    m = 0
+    for fn in facts.fns.values():
+        if not fn.p.endswith('key_matching_port::handle_operations'):
+            continue
+        ins = calls_named(fn, ('insert_with_key',))
+        if not ins:
+            continue
+        res_vars = vars_initialised_from(fn, [c[1] for c in ins])
+        ins_nodes = set(c[1] for c in ins)
+        for pos, sx, node, d in ins:
+            # the first status store after the insertion
+            sts = [(p2, o) for p2, o in atomic_ops(fn) if o['kind'] == 'store' and last_member(fn, o['obj']) == 'status' and fn.can_reach(pos, p2)]
+            reached, ex, par = fn.walk(pos, stop_elem=lambda p2, e: p2 in set(x[0] for x in sts))
+            first = [x for x in sts if x[0] in reached]
+            ok = bool(first)
+            for p2, o in first:
+                sub = fn.subtree(o.get('val', -1))
+                ok = ok and (bool(sub & ins_nodes) or any(fn.nodes[x].get('k') == 'var' and fn.nodes[x].get('v') in res_vars for x in sub))
+            m += 1
+            rep.ob('D2', 'K10', fn, 'the status of a put into a key-matching port is derived from the result of the insertion', ok,
+                   'the put is reported as accepted whatever insert_with_key returned: a duplicate key is counted twice, the join emits a '
+                   'tuple although another port has no message with that key', ln=node['ln'], key_extra='st%s' % node['ln'])
+    if m == 0:
+        raise AnalysisBroken('key_matching_port::handle_operations: no insert_with_key call found')
 
 
 def d3_buffers(facts, rep):
